@@ -64,5 +64,7 @@ def boot():
     if not ensure_hypothesis():
         sys.stderr.write("HARNESS-ERROR: hypothesis is not importable and could not be installed offline\n")
         sys.exit(2)
+    import logging
     import warnings
     warnings.filterwarnings("ignore")
+    logging.getLogger("matplotlib").setLevel(logging.ERROR)
